@@ -23,7 +23,7 @@ from .world import World, SESSIONS
 GEN_FILES = ["GenRewrite"]
 DRIVERS = ["rewritesm"]
 THEOREMS = ["C02_abort_inert", "C02_abort_ok_inert", "C02_abort_closes", "C02_complete_rewrites", "C02_continue_finishes",
-            "C02_journal_overflow_refuted", "C02_nonvacuous"]
+            "C02_unrecorded_start_inert", "C02_stale_start_old_lookup", "C02_journal_overflow_refuted", "C02_nonvacuous"]
 CLAIM = {
     "text": "Partial proof. Theorems (closed; all journals, any number of stops and unrelated commands below the journal cap): "
             "a rebase or cherry-pick that is aborted, fails, is a dry run or is still stopped has no note-writing or "
@@ -163,7 +163,7 @@ class Tie:
                 else:       # cherry-pick maps the source commits onto the commits created on top of the old HEAD
                     has = int(n2 not in ("", "0"))
         inv = [kind, self.ids.setdefault(head, len(self.ids) + 1), self.ids.setdefault(head_after, len(self.ids) + 1),
-               has, int(before), int(after), int(res[0] == 0), int("--dry-run" in args)]
+               has, int(before), int(after), int(res[0] == 0), int("--dry-run" in args), 1]   # last: the pre hook resolved HEAD
         self.cases.append({"args": list(args), "j0": j0, "inv": inv, "j1": j1})
         return res
 
@@ -175,7 +175,8 @@ def mk_world(base, seed, idx, tag):
     files = {}
     for n in ["a.txt", "src/b.rs", "c d.py"]:
         files[n] = "".join(w.fresh("H") + "\n" for _ in range(r.range(5, 8)))
-    sim.init(files)
+    # file modes are part of what a rewrite has to carry: some files are executable (100755)
+    sim.init(files, exec_files=[n for n in files if r.chance(1, 3)])
     return r, sim, w
 
 
